@@ -283,6 +283,12 @@ def _check_identifier(s: str | None, optional: bool) -> bool:
     if not s.isidentifier():
         raise ValueError(f"'{s}' is not a valid identifier")
 
+    if re.fullmatch(r"_[0-9]+", s):
+        # see doc/design.rst, "Reserved Identifiers": these are the index
+        # variables of index lambdas; an array of that name would be
+        # substituted along with them
+        raise ValueError(f"'{s}' is a reserved identifier")
+
     return True
 
 
